@@ -105,6 +105,28 @@ def campaign(c):
         progdiff.compare(c, src, impl, model, 'time-boundary')
         if impl['outcome'][0] == 'success': times_of(c, impl['file'], dict(src=src.decode()))
         c.case(('boundary', v, unit), dict(kind='boundary', src=src.decode()))
+    # records landing EXACTLY on whole-second boundaries right after a record in the previous second
+    for i in range(12 if c.quick else 300):
+        r = c.rng.fork('sb%d' % i)
+        pay = r.below(200); B = (14 + pay + 24) * 8
+        lines = ['import time;', 'import eth;']
+        t, want = 0, []
+        for k in range(1, 4 + r.below(4)):
+            lines.append('eth::frame("|000000000001|", "|000000000002|", "|%s|");' % ('00' * pay)); t += B; want.append(t)
+            target = (t // 10 ** 9 + r.choice([1, 1, 2])) * 10 ** 9 + r.choice([0, 0, 0, 1, -1 + 10 ** 9 - 10 ** 9])
+            d = target - t - B
+            unit = r.choice(['nanos'] + (['micros'] if d % 1000 == 0 else []))
+            lines.append('time::jump_%s(%d);' % (unit, d if unit == 'nanos' else d // 1000)); t += d
+            lines.append('eth::frame("|000000000001|", "|000000000002|", "|%s|");' % ('00' * pay)); t += B; want.append(t)
+        src = ('\n'.join(lines) + '\n').encode()
+        impl, model = progdiff.run_both(c, src)
+        progdiff.compare(c, src, impl, model, 'second-boundary', project=lambda f: len(f).to_bytes(4, 'big'))
+        if impl['outcome'][0] == 'success':
+            T = times_of(c, impl['file'], dict(src=src.decode()))
+            if T is not None and T != want:
+                c.violation('time:boundary', 'records at whole-second boundaries carry wrong timestamps: %s vs %s' % (T[:6], want[:6]), dict(src=src.decode()))
+            c.count('second-boundary-records', sum(1 for x in want if x % 10 ** 9 == 0))
+        c.case(('sb', i), dict(kind='second-boundary', src=src.decode()[:300]) if i % 4 == 0 else None)
     c.assumptions += ['statement boundaries in the real output are found by compiling every statement prefix with the real binary']
 
 
